@@ -503,11 +503,14 @@ class _resolve_called_lambdas(ast.NodeTransformer):
         return self.generic_visit(node)
 
     def visit_Lambda(self, node: ast.Lambda) -> Any:
-        "A lambda's own arguments hide the arguments we are substituting"
+        """A lambda's own arguments hide the arguments we are substituting - in its body: its
+        default values are read outside of it."""
+        node.args.defaults = [self.visit(d) for d in node.args.defaults]
+        node.args.kw_defaults = [None if d is None else self.visit(d) for d in node.args.kw_defaults]
         self._arg_map_list.append({name: None for name in _lambda_binder_names(node.args)})
-        result = self.generic_visit(node)
+        node.body = self.visit(node.body)
         self._arg_map_list.pop()
-        return result
+        return node
 
     def _visit_comprehension(self, node: Any) -> Any:
         "The loop variables of a comprehension hide the arguments we are substituting"
